@@ -411,15 +411,12 @@ impl ChainStorage for ZarrAsyncChainStorage {
     ) -> Result<()> {
         let is_first_draw = self.last_sample_was_warmup && !info.tuning;
         if is_first_draw {
-            {
-                let mut seen = std::collections::HashSet::new();
-                for (field, dim) in &self.event_dim_of_stat {
-                    if seen.insert(dim.as_str()) {
-                        if let Some(buf) = self.stats_buffers.get(field.as_str()) {
-                            self.warmup_event_counts
-                                .insert(dim.clone(), buf.total_pushed());
-                        }
-                    }
+            // Fields of one event dimension are not all populated on every event (some are
+            // optional): the number of events is the largest count among them.
+            for (field, dim) in &self.event_dim_of_stat {
+                if let Some(buf) = self.stats_buffers.get(field.as_str()) {
+                    let count = self.warmup_event_counts.entry(dim.clone()).or_insert(0);
+                    *count = (*count).max(buf.total_pushed());
                 }
             }
             for (key, buffer) in self.draw_buffers.iter_mut() {
@@ -473,15 +470,15 @@ impl ChainStorage for ZarrAsyncChainStorage {
     /// Flush remaining samples and finalize storage, joining all pending writes
     fn finalize(self) -> Result<Self::Finalized> {
         // Collect sample counts before consuming stats_buffers
-        let mut seen = std::collections::HashSet::new();
         let mut sample_counts: HashMap<String, u64> = HashMap::new();
         for (field, dim) in &self.event_dim_of_stat {
-            if seen.insert(dim.as_str()) {
-                if let Some(buf) = self.stats_buffers.get(field.as_str()) {
-                    sample_counts.insert(dim.clone(), buf.total_pushed());
-                }
+            if let Some(buf) = self.stats_buffers.get(field.as_str()) {
+                let count = sample_counts.entry(dim.clone()).or_insert(0);
+                *count = (*count).max(buf.total_pushed());
             }
         }
+        // A chain that is finalized while still in warmup has only warmup events.
+        let still_warmup = self.last_sample_was_warmup;
 
         // Handle remaining buffers synchronously
         for (key, mut buffer) in self.draw_buffers.into_iter() {
@@ -530,28 +527,34 @@ impl ChainStorage for ZarrAsyncChainStorage {
                     .copied()
                     .unwrap_or(0);
                 let s = sample_counts.get(dim.as_str()).copied().unwrap_or(0);
-                (dim.clone(), (w, s))
+                if still_warmup {
+                    (dim.clone(), (s, 0))
+                } else {
+                    (dim.clone(), (w, s))
+                }
             })
             .collect();
         Ok(counts)
     }
 
     fn inspect(&self) -> Result<Option<Self::Finalized>> {
-        let mut seen = std::collections::HashSet::new();
-        let mut counts = HashMap::new();
+        let mut counts: HashMap<String, (u64, u64)> = HashMap::new();
         for (field, dim) in &self.event_dim_of_stat {
-            if seen.insert(dim.as_str()) {
-                let s = self
-                    .stats_buffers
-                    .get(field.as_str())
-                    .map(|b| b.total_pushed())
-                    .unwrap_or(0);
-                let w = self
-                    .warmup_event_counts
-                    .get(dim.as_str())
-                    .copied()
-                    .unwrap_or(0);
-                counts.insert(dim.clone(), (w, s));
+            let s = self
+                .stats_buffers
+                .get(field.as_str())
+                .map(|b| b.total_pushed())
+                .unwrap_or(0);
+            let w = self
+                .warmup_event_counts
+                .get(dim.as_str())
+                .copied()
+                .unwrap_or(0);
+            let entry = counts.entry(dim.clone()).or_insert((0, 0));
+            if self.last_sample_was_warmup {
+                entry.0 = entry.0.max(s);
+            } else {
+                *entry = (w, entry.1.max(s));
             }
         }
         Ok(Some(counts))
